@@ -294,7 +294,7 @@ func (v *VarInt) ReadFrom(r io.Reader) (n int64, err error) {
 	var num int64
 	byteReader := CreateByteReader(r)
 	for sec := byte(0x80); sec&0x80 != 0; num++ {
-		if num > MaxVarIntLen {
+		if num >= MaxVarIntLen {
 			return n, errors.New("VarInt is too big")
 		}
 
